@@ -3,6 +3,7 @@ import MythVerif.Proofs.DagRecCount
 import MythVerif.Proofs.DagRecStat
 import MythVerif.Proofs.DagRecPathMain
 import MythVerif.Proofs.DagRecPathCount
+import MythVerif.Proofs.DagRecPathFlat
 /-!
 # C18 — DAG Recorder totals do not depend on how the DAG was contracted
 
@@ -37,12 +38,19 @@ hypothesis is needed):
   section), path weight = sum of the vertex weights.  Both halves are proved: no path is heavier,
   and a path starting at the first interval attains the value.  `…_any_policy` transfers it to the
   DAG recorded under any admissible contraction policy.
-What is NOT proved here: `depGraph` enumerates the edges by recursion on the execution tree with
-program-order positions as vertex names — the same recursion as `PiDag.teN` (shown to be a
-permutation of `enumEdges` of a dumped DAG in `Proofs/PiDagTreeOrder.lean`) but that the two edge
-lists coincide under the renaming position ↦ array slot of the dump of the uncontracted recording
-is not a theorem; `C18_dep_edge_counts` (edge numbers by kind = the root's `logical_edge_counts`)
-is the proved tie between the two.
+That `depGraph` is the graph of the C19 model and not a private invention is proved twice:
+`C18_dep_edge_counts` (its edge numbers by kind = the root's `logical_edge_counts`), and
+`Proofs/DagRecPathDump.lean` `teN_rec`: the edge list `dr_pi_dag_enum_edges` emits for a dump of the
+uncontracted recording (`PiDag.teN`, a permutation of `enumEdges`) is `edgesT t 0` with every
+position renamed to the array slot its interval occupies.  On that basis
+* `C18_span_is_longest_path_of_dump`: in `flatten sc' nw (record v {} sc t)` — the `.dag` file
+  content of the uncontracted recording — with vertices = slots of `T`, weights = `t_1` of the
+  leaf slots, edges = the array `E` as `dr_pi_dag_enum_edges` + sort produce it, `t_inf` stored in
+  the root slot `T[0]` is the weight of a longest path; `C18_span_any_options_…` says the root of
+  the recording under ANY option setting reports that same number.
+What is NOT proved: a longest-path reading of a CONTRACTED dump (collapsed sections / tasks as
+single vertices weighing their `t_inf`); the edge KINDS of the dump are compared with those of
+`depGraph` only through their counts (the renaming theorem compares end points).
 -/
 namespace MythVerif.DagRec
 
@@ -134,6 +142,26 @@ theorem C18_span_is_longest_path_any_policy (v : Variant) (pol : Policy) (hpol :
   rw [e]
   exact C18_span_is_longest_path v {} sc t h
 
+/-- **the same on the dumped DAG**: take the position independent DAG `dr_make_pi_dag` builds from
+    the uncontracted recording (`flatten`; any clock origin `sc'`, any worker count).  Vertices =
+    the slots of its node array `T`, a leaf slot weighing its `t_1` (interval length) and a
+    section / task slot nothing; edges = its edge array `E` (`dr_pi_dag_enum_edges`, sorted).  The
+    `t_inf` in the root slot is the weight of a longest path of that graph. -/
+theorem C18_span_is_longest_path_of_dump (v : Variant) (sc : Nat) (t : Tree) (h : wnTask t = true) (sc' nw : Nat) :
+    (dumpGraph (PiDag.flatten sc' nw (record v {} sc t))).IsLongestPathWeight
+      (PiDag.flatten sc' nw (record v {} sc t)).T[0]!.info.c.tinf := by
+  have h0 : (PiDag.flatten sc' nw (record v {} sc t)).T[0]!.info.c.tinf = (record v {} sc t).info.c.tinf := by
+    rw [(PiDag.flatten_spec sc' nw (record v {} sc t)).2]; rfl
+  rw [h0, C18_span_eq_est_finish v {} sc t h]
+  exact dump_longest_path v sc t h sc' nw
+
+/-- … and the root of the DAG recorded under any option setting reports exactly that number -/
+theorem C18_span_any_options_is_dump_longest_path (v : Variant) (o : Opts) (sc : Nat) (t : Tree)
+    (h : wnTask t = true) (sc' nw : Nat) :
+    (dumpGraph (PiDag.flatten sc' nw (record v {} sc t))).IsLongestPathWeight (record v o sc t).info.c.tinf := by
+  rw [C18_span_eq_est_finish v o sc t h]
+  exact dump_longest_path v sc t h sc' nw
+
 /-- the dependency graph is the graph whose edges the recorder counts: it has exactly as many
     edges of each of the five kinds as the root reports in `logical_edge_counts` (current source) -/
 theorem C18_dep_edge_counts (o : Opts) (sc : Nat) (t : Tree) (h : wnTask t = true) :
@@ -218,6 +246,18 @@ example : (depGraph demo).IsPath [0, 1, 2, 3, 6] ∧ (depGraph demo).pathWeight 
 /-- jumping from the child back into the middle of the section, or skipping an interval, is not a path -/
 example : ¬ (depGraph demo).IsPath [0, 1, 2, 3, 5] ∧ ¬ (depGraph demo).IsPath [0, 2] ∧
     ¬ (depGraph demo).IsPath [] ∧ ¬ (depGraph demo).IsPath [7] := by decide
+
+/-- the dump of `demo` has 10 slots (3 sections / tasks weighing 0, 7 intervals; program order ↦
+    slots 1, 4, 8, 9, 5, 6, 3); the longest path of its edge array weighs 81 (it is
+    1 → 4 → 8 → 9 → 3, through the child); `mergeSort` does not reduce in the kernel, so the edge
+    array itself is not unfolded here but reached through the theorem -/
+example : (dumpGraph (PiDag.flatten 5 2 (record .fixed {} 5 demo))).dur = [0, 10, 0, 5, 9, 8, 4, 0, 19, 38] ∧
+    (dumpGraph (PiDag.flatten 5 2 (record .fixed {} 5 demo))).pathWeight [1, 4, 8, 9, 3] = 81 ∧
+    PiDag.leavesN (record .fixed {} 5 demo) 0 1 = [1, 4, 8, 9, 5, 6, 3] := by decide +kernel
+
+example : (dumpGraph (PiDag.flatten 5 2 (record .fixed {} 5 demo))).IsLongestPathWeight 81 := by
+  have := C18_span_any_options_is_dump_longest_path .fixed {} 5 demo (by decide) 5 2
+  rwa [show (record .fixed {} 5 demo).info.c.tinf = 81 by decide] at this
 
 /-- the same program with a short child (1 + 2 cycles) and a long continuation in the parent -/
 def demoParent : Tree :=
